@@ -507,6 +507,12 @@ def _run_world(sc, observe=0, snapshot=True, setup=None, mutate_constraints=True
                 if sl.get("longer_first_life"):
                     # the earlier use of the re-used objects lasted longer than the present one (a recompute scheduled well after its last departure)
                     sc1["extra_events"] = list(sc["extra_events"]) + [{"type": "Recompute", "t": last_event_time(sc) + int(sl["longer_first_life"])}]
+                if sl.get("first_perm") is not None and not sl.get("network"):
+                    # the earlier run used a site whose stations were registered in another order (only the algorithm, queue or EV
+                    # objects are carried over, not the network)
+                    import copy as _copy1
+                    sc1["network"] = _copy1.deepcopy(sc["network"])
+                    _random.Random(int(sl["first_perm"])).shuffle(sc1["network"]["stations"])
                 ctx1 = Ctx(sc1, observe=0, snapshot=False)
                 party1 = Party(sc1, ctx1)
                 sim1 = build_sim(sc1, party1)
